@@ -70,7 +70,7 @@ func (prop) Describe() core.Description {
 		RealComponents: []string{"go-geom root package (constructors, Push, accessors)", "encoding/wkb", "encoding/ewkb", "encoding/wkbcommon", "encoding/wkbhex", "encoding/ewkbhex", "wkb/ewkb database/sql Scanner/Valuer wrappers", "stdlib io, encoding/binary, bytes, encoding/hex"},
 		StubComponents: []string{"io.Writer (simio.Writer: failure offset, short/whole-call, sticky/transient)", "io.Reader (simio.Reader: chunking, stalls, data+EOF, error at offset, truncation)", "database/sql driver (Scan/Value are called directly)"},
 		FaultKinds:     []string{"write-fail-sticky-short", "write-fail-sticky-whole", "write-fail-transient", "read-split", "read-stall", "read-data+eof", "read-error", "read-error-with-data", "read-truncate"},
-		Probes:         []string{"probe:error-inside-count", "probe:split-inside-type-word", "probe:stall-before-byte-order", "probe:srid>=2^31", "probe:xdr+zm+empty-member", "probe:nested-collection", "probe:mixed-layout-collection", "probe:empty-point", "probe:rejected-unsupported-layout", "probe:rejected-empty-point", "probe:concatenated>=2", "probe:enum-capped", "probe:member-srid-round-trip"},
+		Probes:         []string{"probe:error-inside-count", "probe:split-inside-type-word", "probe:stall-before-byte-order", "probe:srid>=2^31", "probe:xdr+zm+empty-member", "probe:nested-collection", "probe:mixed-layout-collection", "probe:empty-point", "probe:rejected-unsupported-layout", "probe:rejected-empty-point", "probe:concatenated>=2", "probe:enum-capped", "probe:member-srid-round-trip", "probe:result-rechecked-after-later-calls"},
 	}
 }
 
@@ -308,6 +308,36 @@ type enc struct {
 	refErr error
 	expect *mgeom.Geom // what decoding ref must observe as
 	carve  bool
+	// held are results of earlier successful decodes of ref that were found
+	// correct when they were returned; they are looked at again at the end of
+	// the run, after every later call (results must not share state)
+	held []geom.T
+}
+
+func (e *enc) hold(g geom.T) {
+	if len(e.held) < 256 {
+		e.held = append(e.held, g)
+	}
+}
+
+// recheckHeld observes again every result that was correct when it was
+// returned: a later encode or decode must not have changed it.
+func recheckHeld(res *core.Result, encs []*enc) bool {
+	for i, e := range encs {
+		for _, g := range e.held {
+			res.Count("probe:result-rechecked-after-later-calls", 1)
+			obs, oerr := mgeom.Observe(g)
+			if oerr != nil {
+				res.Fail("result-changed-later", "result-changed-later:ill-formed", "a geometry decoded earlier in this run (geometry %d) became ill-formed after later calls: %v", i, oerr)
+				return false
+			}
+			if d := mgeom.Diff(obs, e.expect); d != "" {
+				res.Fail("result-changed-later", "result-changed-later", "a geometry decoded earlier in this run (geometry %d) was %s when returned and is %s after later calls: %s", i, e.expect, obs, d)
+				return false
+			}
+		}
+	}
+	return true
 }
 
 func hasCarveOut(m *mgeom.Geom, c refwkb.Codec) bool {
@@ -457,9 +487,13 @@ func (prop) Execute(scAny any, phase string, log *core.Log) core.Result {
 	if ok {
 		for _, e := range encs {
 			if !wrappers(&res, log, lib, s, e) {
+				ok = false
 				break
 			}
 		}
+	}
+	if ok {
+		recheckHeld(&res, encs)
 	}
 	res.Nontrivial = faultFired
 	for _, k := range core.SortedKeys(res.Counters) {
@@ -793,6 +827,7 @@ func readStream(res *core.Result, log *core.Log, lib wkbadapt.Lib, encs []*enc, 
 			res.Fail("consumed-wrong", "consumed-wrong", "after Read (%s) of geometry %d the reader stands at %d, the geometry ends at %d (stream %d bytes)", what, i, r.Pos(), cum, len(stream))
 			return false
 		}
+		e.hold(g)
 	}
 	return true
 }
@@ -901,6 +936,7 @@ func wrappers(res *core.Result, log *core.Log, lib wkbadapt.Lib, s *Scenario, e 
 			res.Fail("decoded-differs", "decoded-differs:"+what, "%s observed %s, expected %s: %s", what, obs, e.expect, d)
 			return false
 		}
+		e.hold(g)
 		return true
 	}
 	var g geom.T
